@@ -2,8 +2,8 @@
 
    Modelled code (as it is in /repo now):
      gnpy/core/utils.py     round2float (178-214)
-     gnpy/core/network.py   target_power (139-182), prev_/next_node_generator (188-253), span_loss (330-367, Raman gain = 0:
-                            no RamanFiber), find_first_node (561-578), set_amplifier_voa (601-636),
+     gnpy/core/network.py   target_power (139-182), prev_/next_node_generator (188-253), span_loss (330-370, the Raman gain estimates of
+                            RamanFibers are inputs), find_first_node (561-578), set_amplifier_voa (601-636),
                             compute_gain_power_and_tilt_target (701-769), set_one_amplifier (956-1085),
                             set_egress_amplifier (1155-1286: Edfa nodes, one design band, SRS deviation = 0),
                             add_connector_loss (1947-1980), add_fiber_padding (1983-2022)
@@ -55,9 +55,15 @@ Record span_cfg := mkSpan {
 
 (* ------------------------------------------------------------------ elements of an OMS *)
 (* a fibre as loaded: loss_coef x length + lumped losses, connectors (None = not given), att_in, loss coefficient(s) *)
-Record rfiber := mkRF { rf_lin : Q; rf_cin : option Q; rf_cout : option Q; rf_att : Q; rf_lc : list Q }.
+(* rf_raman: for a RamanFiber, the two values estimate_raman_gain yields during one design (INPUTS of the model, the
+   Raman solver is not modelled): the estimate at the reference power, rounded to 0.01 dB, returned while no span input
+   power is known (padding, power target of the amplifier in front of the span), and the estimate at the designed span
+   input power, cached as estimated_gain when the walk reaches the fibre and used by the amplifier behind the span *)
+Record rfiber := mkRF { rf_lin : Q; rf_cin : option Q; rf_cout : option Q; rf_att : Q; rf_lc : list Q;
+                        rf_raman : option (Q * Q) }.
 (* a fibre after add_connector_loss; f_dsl = design_span_loss attribute if set *)
-Record fiber := mkF { f_lin : Q; f_cin : Q; f_cout : Q; f_att : Q; f_lc : list Q; f_dsl : option Q }.
+Record fiber := mkF { f_lin : Q; f_cin : Q; f_cout : Q; f_att : Q; f_lc : list Q; f_dsl : option Q;
+                      f_raman : option (Q * Q) }.
 (* an amplifier node: selection data, operational settings (None = null / not given), NF of each candidate at this node *)
 Record ampn := mkAN {
   an_node : anode;
@@ -75,8 +81,15 @@ Definition eloss (e : elem) : Q := match e with Fib f => floss f | Fus l => l | 
 Definition qsum (l : list Q) : Q := fold_right Qplus 0 l.
 Definition is_fus (e : elem) : bool := match e with Fus _ => true | _ => false end.
 Definition is_ff (e : elem) : bool := match e with Fus _ | Fib _ => true | Amp _ => false end.
-Definition set_att (f : fiber) (a : Q) : fiber := mkF (f_lin f) (f_cin f) (f_cout f) a (f_lc f) (f_dsl f).
-Definition set_dsl (f : fiber) (d : Q) : fiber := mkF (f_lin f) (f_cin f) (f_cout f) (f_att f) (f_lc f) (Some d).
+Definition set_att (f : fiber) (a : Q) : fiber := mkF (f_lin f) (f_cin f) (f_cout f) a (f_lc f) (f_dsl f) (f_raman f).
+Definition set_dsl (f : fiber) (d : Q) : fiber := mkF (f_lin f) (f_cin f) (f_cout f) (f_att f) (f_lc f) (Some d) (f_raman f).
+(* estimate_raman_gain of an element: 0 unless it is a RamanFiber; cached = the walk has reached the fibre *)
+Definition rgain (cached : bool) (e : elem) : Q :=
+  match e with
+  | Fib f => match f_raman f with Some (gref, gcached) => if cached then gcached else gref | None => 0 end
+  | _ => 0
+  end.
+Definition is_raman (f : fiber) : bool := match f_raman f with Some _ => true | None => false end.
 
 (* ------------------------------------------------------------------ add_connector_loss *)
 Definition is_rfus (e : relem) : bool := match e with RFus _ => true | _ => false end.
@@ -86,7 +99,7 @@ Fixpoint conn (c : span_cfg) (l : list relem) : list elem :=
   | [] => []
   | RFib f :: t =>
       let eol := match t with RFus _ :: _ => 0 | _ => c_eol c end in     (* no EOL when the next node is a Fused *)
-      Fib (mkF (rf_lin f) (odef (rf_cin f) (c_con_in c)) (odef (rf_cout f) (c_con_out c) + eol) (rf_att f) (rf_lc f) None)
+      Fib (mkF (rf_lin f) (odef (rf_cin f) (c_con_in c)) (odef (rf_cout f) (c_con_out c) + eol) (rf_att f) (rf_lc f) None (rf_raman f))
       :: conn c t
   | RFus x :: t => Fus x :: conn c t
   | RAmp a :: t => Amp a :: conn c t
@@ -102,13 +115,15 @@ Fixpoint walk_gen (side : list elem) (node : elem) : list elem :=
   | [] => []
   | p :: r => if link_ok p node then p :: walk_gen r p else []
   end.
-Definition live_loss (before : list elem) (node : elem) (after : list elem) : Q :=
-  (if is_ff node then eloss node else 0)
-  + qsum (map eloss (walk_gen before node)) + qsum (map eloss (walk_gen after node)).
-Definition span_loss (before : list elem) (node : elem) (after : list elem) : Q :=
+Definition live_loss (cached : bool) (before : list elem) (node : elem) (after : list elem) : Q :=
+  ((if is_ff node then eloss node else 0)
+   + qsum (map eloss (walk_gen before node)) + qsum (map eloss (walk_gen after node)))
+  - (rgain cached node
+     + qsum (map (rgain cached) (walk_gen before node)) + qsum (map (rgain cached) (walk_gen after node))).
+Definition span_loss (cached : bool) (before : list elem) (node : elem) (after : list elem) : Q :=
   match node with
-  | Fib f => match f_dsl f with Some d => d | None => live_loss before node after end
-  | _ => live_loss before node after
+  | Fib f => match f_dsl f with Some d => d | None => live_loss cached before node after end
+  | _ => live_loss cached before node after
   end.
 
 (* ------------------------------------------------------------------ add_fiber_padding *)
@@ -139,7 +154,9 @@ Fixpoint padr (c : span_cfg) (done seg : list elem) (after : list elem) : list e
       match t with
       | Fus _ :: _ => padr c done (Fib f :: seg) t                 (* next node is a Fused: skipped *)
       | _ =>
-          let sl := span_loss seg (Fib f) t in
+          if is_raman f then padr c done (Fib f :: seg) t           (* a RamanFiber is never padded *)
+          else
+          let sl := span_loss false seg (Fib f) t in
           let f1 := set_dsl f sl in
           if qltb sl (c_padding c) then
             match bump seg (Fib f1) (c_padding c - sl) with
@@ -168,7 +185,7 @@ Definition dp_rule_arg (c : span_cfg) (loss : Q) : Q :=
 Inductive endk := EndRoadm (preamp_list : list string) | EndTrx.
 (* span loss seen from the next node (the node after the amplifier): its upstream neighbour is the amplifier *)
 Definition next_loss (rest : list elem) : Q :=
-  match rest with [] => 0 | n :: t => span_loss [] n t end.
+  match rest with [] => 0 | n :: t => span_loss false [] n t end.
 Definition target_power (c : span_cfg) (rest : list elem) (e : endk) : res Q :=
   match rest, e with
   | [], EndRoadm _ => Ok 0
@@ -214,17 +231,17 @@ Definition auto_voa (c : span_cfg) (pmax gmax power_target gain : Q) : Q :=
   let raw := auto_voa_raw pmax gmax power_target gain in
   Qmax (Qmin (round2float raw (c_voa_step c) - c_voa_margin c) raw) 0.     (* capped at the head-room *)
 
+(* the automatic choice of the amplifier model: (gain target, power target) -> chosen entry, power reduction, and the
+   smallest margin met while choosing *)
+Definition selector := Q -> Q -> res (amp * Q * Q).
+
 (* set_one_amplifier; returns the designed point and the (dp, voa) handed to the next amplifier *)
-Definition set_one (c : span_cfg) (lib : list amp) (bmin bmax pref_total prev_dp prev_voa node_loss : Q)
-                   (tp : res Q) (tp_arg : Q) (prev next : neigh) (a : ampn) : res (damp * Q * Q) :=
+Definition set_one_gen (c : span_cfg) (lib : list amp) (pref_total prev_dp prev_voa node_loss : Q)
+                       (tp : res Q) (tp_arg : Q) (sel : selector) (a : ampn) : res (damp * Q * Q) :=
   let* (g0, pt, dp0, voa) := targets c pref_total prev_dp prev_voa node_loss tp a in
   let nd := an_node a in
   let* (params, red, crit_sel) :=
-    if String.eqb (n_variety nd) "" then
-      let nf := fun x => nf_lookup (an_nfs a) (a_name x) in
-      let* (s, red) := auto_select nd prev next bmin bmax (c_maxl c) g0 pt (c_ext c) nf lib in
-      Ok (s, red, select_crit (raman_allowed prev (c_maxl c)) g0 pt (c_ext c)
-                    (restrict_lib (node_restrictions nd prev next bmin bmax lib) lib))
+    if String.eqb (n_variety nd) "" then sel g0 pt
     else
       match find_amp (n_variety nd) lib with
       | None => Err "KeyError:type_variety"
@@ -247,12 +264,25 @@ Definition set_one (c : span_cfg) (lib : list amp) (bmin bmax pref_total prev_dp
           (Qmin crit_sel (Qmin crit_tp crit_voa)),
       dp, voa).
 
+(* the choice for a single-band Edfa node: get_node_restrictions + select_edfa *)
+Definition edfa_selector (c : span_cfg) (lib : list amp) (bmin bmax : Q) (prev next : neigh) (a : ampn) : selector :=
+  fun g0 pt =>
+    let nd := an_node a in
+    let nf := fun x => nf_lookup (an_nfs a) (a_name x) in
+    let* (s, red) := auto_select nd prev next bmin bmax (c_maxl c) g0 pt (c_ext c) nf lib in
+    Ok (s, red, select_crit (raman_allowed prev (c_maxl c)) g0 pt (c_ext c)
+                  (restrict_lib (node_restrictions nd prev next bmin bmax lib) lib)).
+
+Definition set_one (c : span_cfg) (lib : list amp) (bmin bmax pref_total prev_dp prev_voa node_loss : Q)
+                   (tp : res Q) (tp_arg : Q) (prev next : neigh) (a : ampn) : res (damp * Q * Q) :=
+  set_one_gen c lib pref_total prev_dp prev_voa node_loss tp tp_arg (edfa_selector c lib bmin bmax prev next a) a.
+
 (* ------------------------------------------------------------------ set_egress_amplifier along the OMS *)
 Definition neigh_of (e : elem) : neigh := match e with Fib f => NFiber (f_lc f) | _ => NOther end.
 (* span_loss(prev_node): prev_node = last passive element before the amplifier, seg = the passive elements since the
    previous amplifier (or the ingress), nearest first; [] = the previous node is an amplifier / ROADM / Transceiver *)
 Definition node_loss_of (seg : list elem) : Q :=
-  match seg with [] => 0 | p :: r => span_loss r p [] end.
+  match seg with [] => 0 | p :: r => span_loss true r p [] end.
 
 Fixpoint design_from (c : span_cfg) (lib : list amp) (bmin bmax pref_total : Q) (e : endk)
                      (prevn : neigh) (seg : list elem) (prev_dp prev_voa : Q) (after : list elem)
@@ -282,7 +312,8 @@ Definition design (c : span_cfg) (lib : list amp) (bmin bmax pref_ch pref_total 
   design_from c lib bmin bmax pref_total e (start_neigh s) [] (p0 - pref_ch) 0 chain.
 
 (* ------------------------------------------------------------------ the reference channel walking the designed line *)
-(* power of the reference channel after each amplifier, before its output VOA, when the line is fed with p *)
+(* power of the reference channel after each amplifier, before its output VOA, when the line is fed with p
+   (a RamanFiber gives the gain estimated at its designed input power) *)
 Fixpoint walk (p : Q) (chain : list elem) (ds : list damp) : list Q :=
   match chain with
   | [] => []
@@ -291,6 +322,93 @@ Fixpoint walk (p : Q) (chain : list elem) (ds : list damp) : list Q :=
       | [] => []
       | d :: ds' => let q := p - d_ivoa d + d_gain d in q :: walk (q - d_ovoa d) rest ds'
       end
-  | x :: rest => walk (p - eloss x) rest ds
+  | x :: rest => walk (p - (eloss x - rgain true x)) rest ds
   end.
 
+
+(* ------------------------------------------------------------------ multiband OMS *)
+(* Modelled code: the Multiband_amplifier branch of set_egress_amplifier (1247-1281): one amplifier per design band,
+   prev_dp / prev_voa / pref_total_db per band, the same set_one_amplifier per band (SRS deviation and tilt 0: Raman
+   flag off), the multiband models restricting each band's choice (Model/Select.v: multi_redfa, band_select), and
+   find_type_variety on the band choices.  Passive elements are common to the bands. *)
+Record bandinfo := mkBI { bi_min : Q; bi_max : Q; bi_pref_total : Q }.
+(* an element of a multiband OMS: a passive element (Fib / Fus) or a Multiband_amplifier node with its per band
+   amplifiers (settings, imposed variety, NF of the candidates), in the order of the design bands *)
+Inductive melem := MFib (f : fiber) | MFus (l : Q) | MA (nd : anode) (amps : list ampn).
+
+Definition dummy_ampn : ampn := mkAN (mkNode "" []) None None None None [].
+Definition dummy_damp : damp := mkD "" 0 None 0 0 0 0 1.
+Definition to_elem (m : melem) : elem :=
+  match m with MFib f => Fib f | MFus l => Fus l | MA _ _ => Amp dummy_ampn end.
+
+(* the choice of one band's amplifier among restrictions_edfa *)
+Definition band_selector (c : span_cfg) (lib : list amp) (redfa : list string) (prev : neigh) (b : bandinfo)
+                         (a : ampn) : selector :=
+  fun g0 pt =>
+    let nf := fun x => nf_lookup (an_nfs a) (a_name x) in
+    let* (s, red) := band_select lib redfa prev (c_maxl c) (bi_min b) (bi_max b) g0 pt (c_ext c) nf in
+    let r := filter (covers_name lib (bi_min b) (bi_max b)) redfa in
+    Ok (s, red, select_crit (raman_allowed prev (c_maxl c)) g0 pt (c_ext c)
+                  (filter (fun x => negb (a_multi x) && (isnil r || smem (a_name x) r)) lib)).
+
+(* the per band targets handed to preselect_multiband_amps *)
+Fixpoint mb_targets (c : span_cfg) (nl : Q) (tp : res Q) (bis : list bandinfo) (st : list (Q * Q))
+                    (amps : list ampn) : res (list (Q * Q * Q * Q)) :=
+  match bis, st, amps with
+  | b :: bs, (pdp, pvoa) :: ss, a :: rest =>
+      let* (g0, pt, _, _) := targets c (bi_pref_total b) pdp pvoa nl tp a in
+      let* r := mb_targets c nl tp bs ss rest in
+      Ok ((bi_min b, bi_max b, g0, pt) :: r)
+  | [], [], [] => Ok []
+  | _, _, _ => Err "ValueError:number of bands"
+  end.
+
+(* set_one_amplifier band after band *)
+Fixpoint mb_set (c : span_cfg) (lib : list amp) (nl : Q) (tp : res Q) (tp_arg : Q) (redfa : list string) (prev : neigh)
+                (bis : list bandinfo) (st : list (Q * Q)) (amps : list ampn) : res (list (damp * Q * Q)) :=
+  match bis, st, amps with
+  | b :: bs, (pdp, pvoa) :: ss, a :: rest =>
+      let* r := set_one_gen c lib (bi_pref_total b) pdp pvoa nl tp tp_arg (band_selector c lib redfa prev b a) a in
+      let* rs := mb_set c lib nl tp tp_arg redfa prev bs ss rest in
+      Ok (r :: rs)
+  | [], [], [] => Ok []
+  | _, _, _ => Err "ValueError:number of bands"
+  end.
+
+Definition mb_node (c : span_cfg) (lib : list amp) (groups : list mgroup) (nl : Q) (tp : res Q) (tp_arg : Q)
+                   (prev next : neigh) (nd : anode) (bis : list bandinfo) (st : list (Q * Q)) (amps : list ampn)
+  : res (list (damp * Q * Q)) :=
+  let* bts := if String.eqb (n_variety nd) "" then mb_targets c nl tp bis st amps else Ok [] in
+  let* (_, redfa) := multi_redfa nd prev next lib groups (c_ext c) bts in
+  let* rs := mb_set c lib nl tp tp_arg redfa prev bis st amps in
+  match common_groups groups (map (fun r => d_variety (fst (fst r))) rs) with
+  | [] => Err "ConfigurationError:amps do not belong to the same amp type"
+  | _ => Ok rs
+  end.
+
+Fixpoint design_mb_from (c : span_cfg) (lib : list amp) (groups : list mgroup) (bis : list bandinfo) (e : endk)
+                        (prevn : neigh) (seg : list elem) (st : list (Q * Q)) (after : list melem)
+  : res (list (list damp)) :=
+  match after with
+  | [] => Ok []
+  | MA nd amps :: rest =>
+      let rest_e := map to_elem rest in
+      let next := match rest_e with
+                  | [] => match e with EndRoadm pl => NRoadm [] pl | EndTrx => NOther end
+                  | n :: _ => neigh_of n
+                  end in
+      let tp_arg := match rest_e, e with [], EndRoadm _ => 0 | _, _ => dp_rule_arg c (next_loss rest_e) end in
+      let* rs := mb_node c lib groups (node_loss_of seg) (target_power c rest_e e) tp_arg prevn next nd bis st amps in
+      let* dss := design_mb_from c lib groups bis e NOther [] (map (fun r => (snd (fst r), snd r)) rs) rest in
+      Ok (map (fun r => fst (fst r)) rs :: dss)
+  | x :: rest => design_mb_from c lib groups bis e (neigh_of (to_elem x)) (to_elem x :: seg) st rest
+  end.
+
+Definition design_mb (c : span_cfg) (lib : list amp) (groups : list mgroup) (bis : list bandinfo) (pref_ch p0 : Q)
+                     (s : startk) (e : endk) (chain : list melem) : res (list (list damp)) :=
+  design_mb_from c lib groups bis e (start_neigh s) [] (map (fun _ => (p0 - pref_ch, 0)) bis) chain.
+
+(* band k of a multiband OMS seen as a single-band line *)
+Definition proj_band (k : nat) (chain : list melem) : list elem :=
+  map (fun m => match m with MA _ amps => Amp (nth k amps dummy_ampn) | _ => to_elem m end) chain.
+Definition proj_ds (k : nat) (dss : list (list damp)) : list damp := map (fun ds => nth k ds dummy_damp) dss.
